@@ -37,7 +37,8 @@ def DTables.model (t : DTables) : Tables Float :=
     es := (List.range (t.T - 1)).map (fun s => fun j => E[(s + 1) * n + j]!)
     -- the harness' emission object: derivative with respect to e<s>_<j> is the indicator of that entry
     dE := fun var => (fun j => if var == ename 0 j then 1.0 else 0.0,
-                      (List.range (t.T - 1)).map (fun s => fun j => if var == ename (s + 1) j then 1.0 else 0.0)) }
+                      (List.range (t.T - 1)).map (fun s => fun j => if var == ename (s + 1) j then 1.0 else 0.0))
+    d2E := fun _ => (fun _ => 0.0, (List.range (t.T - 1)).map (fun _ => fun _ => 0.0)) }
 
 /-! exact copies of the tables -/
 def ratOf (x : Float) : Rat := (floatToRat? x).getD 0
@@ -174,7 +175,7 @@ def specOf (o : Obj) (op : Op Float) : Ans Float :=
   | .resc r => rescSpec t r.bps op
   | .log g => logSpec t g.bps op
   | .low l => match op with
-    | .posterior | .d1 _ => .exc
+    | .posterior | .d1 _ | .d2 _ => .exc
     | _ => .val (lowCompute t l.maxSize l.bps)
 
 def both (a b : String) : String := if a.startsWith "FAIL" then a else if b.startsWith "FAIL" then b else if a == "-" then b else a
@@ -289,16 +290,57 @@ def agreeVerdict (os : List (Option Obj)) (impl : Option (List String)) : String
           | some f => f
           | none => match implFloat? a0 with | some x => llCheck o0.tab o0.bps x | none => "FAIL:parse"
 
+def parse2 (s : String) : Option (Nat × Nat) :=
+  match s.splitOn "_" with
+  | [a, b] => do let x ← a.toNat?; let y ← b.toNat?; pure (x, y)
+  | _ => none
+
+/-- exact first and second derivative of `-log L` with respect to the emission entry `(s, j)`:
+`L` is affine in that entry, `L(e + 1) - L(e) = b`, so `d1 = -b / L`, `d2 = (b / L)²` -/
+def exactDeriv (t : DTables) (bps : List Nat) (s j : Nat) : Option (Rat × Rat) :=
+  if s ≥ t.T || j ≥ t.n then none else
+  match exactLik t bps, exactLik { t with E := t.E.modify (s * t.n + j) (· + 1.0) } bps with
+  | some l0, some l1 =>
+    -- the modified entry must be exactly e + 1 in double arithmetic
+    let e := t.E[s * t.n + j]!
+    if l0 == 0 || ratOf (e + 1.0) != ratOf e + 1 then none else
+    let b := l1 - l0
+    some (-(b / l0), (b / l0) * (b / l0))
+  | _, _ => none
+
+/-- the derivative recursions start (and restart) from `eqFreq[j]` while the forward recursion uses
+`Σ_k eqFreq[k]·P(k,j)`: they describe the same function only when the equilibrium vector is stationary -/
+def stationary (t : DTables) : Bool :=
+  (List.range t.n).all (fun j =>
+    Float.abs ((List.range t.n).foldl (fun a k => a + t.F[k]! * t.P[k * t.n + j]!) 0.0 - t.F[j]!) ≤ 1e-13)
+
+/-- verdict on a derivative (order 1 or 2) with respect to `var` answered by the implementation -/
+def derivVerdict (o : Obj) (impl : List String) (var : String) (order : Nat) : String :=
+  match impl with
+  | [a] =>
+    match implFloat? a with
+    | none => "FAIL:parse"
+    | some x =>
+      let t := o.tab
+      if o.stale || !t.nonneg || !stationary t || !validBreaks t.T o.bps || !rangeOk t o.bps then "-" else
+      if !var.startsWith "e" then "-" else
+      match parse2 (var.drop 1).toString with
+      | none => "-"
+      | some (s, j) =>
+        match exactDeriv t o.bps s j with
+        | none => "-"
+        | some (d1, d2) =>
+          let want := ratToFloat (if order == 1 then d1 else d2)
+          if Float.abs (x - want) ≤ 1e-7 * (if Float.abs want > 1.0 then Float.abs want else 1.0) then "ok"
+          else if order == 1 then "FAIL:derivative1" else "FAIL:derivative2"
+  | _ => "FAIL:parse"
+
 /-! ## parameters -/
 
 /-- `Parameter::setValue` with precision 0 (Parameter.cpp:55): the value is stored only when
 `|value - old| > 0` (a NaN is never stored) -/
 def upd (old v : Float) : Float := if Float.abs (v - old) > 0 then v else old
 
-def parse2 (s : String) : Option (Nat × Nat) :=
-  match s.splitOn "_" with
-  | [a, b] => do let x ← a.toNat?; let y ← b.toNat?; pure (x, y)
-  | _ => none
 
 /-- `some tables'` when the name is a parameter of the object -/
 def setParam (o : Obj) (t : DTables) (name : String) (v : Float) : Option DTables :=
@@ -448,13 +490,18 @@ def step (s : St) (op : List String) (impl : Option (List String)) : St × Strin
         let (o1, a) := runOp o .posterior
         let out := match a with | .mat m => hxs ((m.zip (t.e0 :: t.es)).map (fun (r, e) => siteLik t.p r e)) | _ => showAns a
         (s.put k o1, out, siteVerdict o impl none)
-      | "d1", [var] =>
-        let (o1, a) := runOp o (.d1 var)
+      | dop, [var] =>
+        if dop != "d1" && dop != "d2" then (s, "bad-op", "-") else
+        let mop : Op Float := if dop == "d1" then .d1 var else .d2 var
+        let (o1, a) := runOp o mop
         match o.core with
         | .log _ => (s, match impl with | some i => " ".intercalate i | none => "unmodelled", "-")   -- not modelled: echo
         | _ => (s.put k o1, showAns a,
             match impl with
-            | some i => if isExc i || var == "" then "-" else (match o.core with | .resc _ => histCheck o i (specOf o (.d1 var)) | _ => "-")
+            | some i => if isExc i || var == "" then "-" else
+                (match o.core with
+                 | .resc _ => both (histCheck o i (specOf o mop)) (derivVerdict o i var (if dop == "d1" then 1 else 2))
+                 | _ => "-")
             | none => "-")
       | _, _ => (s, "bad-op", "-")
   | _ => (s, "bad-op", "-")
